@@ -130,6 +130,7 @@ const (
 	keyStaleCache    = "event-index:stale-cache-after-reorg-across-window"
 	keyStaleSnapshot = "event-index:stale-snapshot-after-reorg-then-crash"
 	keyStoreRejected = "event-index:store-rejected-after-reorg-across-window-then-crash"
+	keyStalePersist  = "event-index:stale-persisted-window-after-reorg-across-window-then-crash"
 )
 
 // ------------------------------------------------------------------ concretisation
@@ -838,6 +839,8 @@ func replayOne(in *input, idx int, beh []step, m meta) (oc outcome) {
 					key = keyStaleCache
 				case "snapshot":
 					key = keyStaleSnapshot
+				case "persisted":
+					key = keyStalePersist
 				}
 				oc.defects = append(oc.defects, key)
 				diverge(si, key, fmt.Sprintf("query %s over %d..%d (chunk %d, limit %d) returns %v, the stored receipts hold %v",
@@ -986,11 +989,16 @@ func TestEventsReplay(t *testing.T) {
 		}
 		out.Done(1, oc.steps)
 		if in.Mode == "calibrate" {
-			first := -1
-			if len(oc.divergences) > 0 {
-				first = oc.divergences[0].Step
+			first, firstKey := -1, ""
+			for _, d := range oc.divergences {
+				// the first divergence that is not a defect the model itself predicts
+				if d.Key != keyStaleCache && d.Key != keyStaleSnapshot && d.Key != keyStoreRejected && d.Key != keyStalePersist {
+					first, firstKey = d.Step, d.Key
+					break
+				}
 			}
-			perBehaviour = append(perBehaviour, vh.J{"conform": oc.conform, "defects": oc.defects, "first_divergence_step": first})
+			perBehaviour = append(perBehaviour, vh.J{"conform": oc.conform, "defects": oc.defects,
+				"first_divergence_step": first, "first_divergence_key": firstKey})
 		}
 	}
 	out.Stats["actions_replayed"] = actions
